@@ -301,6 +301,8 @@ outerloop:
 		} else if opElementLength == -2 { // 2 bytes long length indicator
 			opElementLength = int(binary.BigEndian.Uint16(opElements[index+1 : index+1+2]))
 			index += 1 + 2 + opElementLength
+		} else { // Unknown IEI: its length cannot be determined, stop looking
+			break
 		}
 	}
 
